@@ -22,10 +22,11 @@ FIXED=[
  ("C06","union.Parse picks the member template","nodes.go union.Parse","parse panicked (reflect.Value.Convert) for a union whose first member is declared by value and whose matching member needs a pointer receiver"),
  ("C14","ebnf.Term.String drops the negation","ebnf/ebnf.go Term.String","printing a parsed EBNF tree omitted '~': `A = ~\"x\" \"y\" .` printed as `A = \"x\" \"y\" .`"),
  ("C14","modifier applied to a modified group","ebnf.go buildEBNF","Parser.String() printed `( \"a\"+ )?` as `\"a\"+?` (and `( ~( x+ ) )?` as `~(x)+?`), which the ebnf package cannot parse"),
- ("C14","negated negation as ~~x","ebnf.go buildEBNF","Parser.String() printed `~( ~Int )` as `~~<int>`, which the ebnf package cannot parse (found by the C14 seed sweep after the first printer repairs)"),
+ ("C14","negated negation as ~~x","ebnf.go buildEBNF","Parser.String() printed `~( ~Int )` as `~~<int>` (unparseable) and `~[ \"a\" ]` as `~\"a\"?` (reads back as `(~\"a\")?`); found by the C14 seed sweep and by the structural comparison added to C14"),
  ("C08","left recursion goes undetected","validate.go isLeftRecursive","left recursion undetected when the recursive reference follows a multi-term earlier alternative, a nullable or lookahead prefix, or goes through another production/union in those positions, e.g. `A = \"t\" \"u\" | A \"e\"`"),
  ("C18","Unquote mangles","map.go unquote","Unquote turned \"\\xff\" into U+00FF and interpreted escapes inside back-quoted strings"),
  ("C19","EBNF printing panics on anonymous struct","ebnf.go buildEBNF","Build panicked (slice bounds out of range [:1]) rendering the left-recursion error for a cycle through an anonymous struct field"),
+ ("C19","Parseable with a value receiver","grammar.go parseType","Build panicked (reflect: Elem of invalid type) for a field or root type that implements Parseable with a value receiver (found by the static-type cases added to C19 after an independent reviewer's remark)"),
  ("C19","modifier, capture or negation with no operand","grammar.go parseModifier/parseCapture/parseNegation","Build panicked (value \"<nil>\") on tags `@`, `?`, `!`, `~`, `\"a\" @`, `! !`, parser:\"@\""),
  ("C06","capturing an empty match into a lexer.Token","nodes.go setField","`Tok lexer.Token \"@(\\\"a\\\"?)\"` on input without the optional token: index out of range [0] in setField (witness grammar W4)"),
  ("C05","never matches multi-byte literals","cmd/participle/gen_lexer_cmd.go generateRegexMatch","generated matcher used the rune count of a literal as byte length: rule `é` never matched, `(世)` did not compile"),
